@@ -281,6 +281,8 @@ def write_evidence(mod, tier, seed, merged, wall, extra_viol=0):
         "violations": len(merged["violations"]) + extra_viol,
     }
     d = os.path.join(ROOT, "evidence")
+    if os.environ.get("VERIF_REPO"):
+        d = os.path.join(ROOT, "found", "evidence_of_scratch_runs")     # development runs against a scratch copy are no evidence
     os.makedirs(d, exist_ok=True)
     path = os.path.join(d, mod.PROPERTY + ".json")
     tmp = path + ".tmp"
